@@ -69,7 +69,30 @@ impl Default for SyncOutcome {
 // `&SyncHandle` to `&mut SyncHandle` in the signature (R3); the body text is unchanged. The reply is arbitrary
 // (Ok or Err): the actor may be stopped, the replica closed or sync disabled.
 pub enum ReplyKind { Failed, More, Done }
-pub struct StoreCall { pub ns: NamespaceId, pub reply: ReplyKind }
+/// `given`: the session outcome handed to the call; `out`: the outcome it handed back (meaningful when the call succeeded)
+pub struct StoreCall { pub ns: NamespaceId, pub reply: ReplyKind, pub given: SyncOutcome, pub out: SyncOutcome }
+pub open spec fn reply_out(r: Result<(Option<sync::ProtocolMessage>, SyncOutcome), AnyhowError>) -> SyncOutcome {
+    match r { Ok((_, o)) => o, Err(_) => sync_outcome_default() }
+}
+/// the session outcome is threaded through the added calls: the first is given `p0`, each later one what the previous one handed back
+/// (opaque: used through the two lemmas below, so that the quantifier never meets the solver inside the big session loops)
+#[verifier::opaque]
+pub open spec fn calls_threaded(before: Seq<StoreCall>, after: Seq<StoreCall>, p0: SyncOutcome) -> bool {
+    &&& before.len() <= after.len()
+    &&& (before.len() < after.len() ==> after[before.len() as int].given == p0)
+    &&& forall|i: int| before.len() < i < after.len() ==> (#[trigger] after[i]).given == after[i - 1].out
+}
+pub proof fn lemma_threaded_none(before: Seq<StoreCall>, p0: SyncOutcome)
+    ensures calls_threaded(before, before, p0)
+{ reveal(calls_threaded); }
+pub proof fn lemma_threaded_push(before: Seq<StoreCall>, after: Seq<StoreCall>, p0: SyncOutcome, c: StoreCall)
+    requires calls_threaded(before, after, p0), c.given == calls_outcome(before, after, p0)
+    ensures calls_threaded(before, after.push(c), p0), calls_outcome(before, after.push(c), p0) == c.out
+{ reveal(calls_threaded); }
+/// the outcome of the session so far: what the last added call handed back, or `p0` if there was none
+pub open spec fn calls_outcome(before: Seq<StoreCall>, after: Seq<StoreCall>, p0: SyncOutcome) -> SyncOutcome {
+    if before.len() < after.len() { after[after.len() - 1].out } else { p0 }
+}
 pub open spec fn reply_kind(r: Result<(Option<sync::ProtocolMessage>, SyncOutcome), AnyhowError>) -> ReplyKind {
     match r {
         Err(_) => ReplyKind::Failed,
@@ -86,7 +109,7 @@ impl SyncHandle {
     #[verifier::external_body]
     pub async fn sync_process_message(&mut self, namespace: NamespaceId, message: sync::ProtocolMessage, from: PeerIdBytes, state: SyncOutcome)
         -> (r: Result<(Option<sync::ProtocolMessage>, SyncOutcome), AnyhowError>)
-        ensures final(self).calls() == old(self).calls().push(StoreCall { ns: namespace, reply: reply_kind(r) })
+        ensures final(self).calls() == old(self).calls().push(StoreCall { ns: namespace, reply: reply_kind(r), given: state, out: reply_out(r) })
     { unimplemented!() }
 
     #[verifier::external_body]
